@@ -222,85 +222,188 @@ theorem with_shadows_assign (pushed : List NS) (locals : NS) (globals : List NS)
   rw [dictGet_dictOf, lastOf_map (fun x => eval pushed locals globals x) args k, h]
   rfl
 
-mutual
-/-- a node that neither assigns nor defines a macro (anywhere outside macro bodies it calls) -/
-def pureNode : Node → Bool
-  | .assign _ _ => false
-  | .macroDef _ _ _ => false
-  | .withB _ body => pureList body
-  | _ => true
-def pureList : List Node → Bool
-  | [] => true
-  | n :: ns => pureNode n && pureList ns
-end
-
-/-- **with_scoped**: nothing a `with` block binds survives the block.  The pushed namespace is popped
-(in the model: the scope chain after the block is the one before it, `pushed` being an argument of
-`render`), and the only state a block can leave behind is what its body explicitly assigns or defines:
-a block whose body has no `assign` / `macro` returns the state it was entered with — for every nesting
-depth, every argument list and every call made inside it. -/
-theorem with_scoped (limit : Nat) :
-    (∀ (depth base : Nat) (pushed globals : List NS) (st : State) (n : Node), pureNode n = true →
-      ∀ st' o, render limit depth base pushed globals st n = .ok (st', o) → st' = st) ∧
-    (∀ (depth base : Nat) (pushed globals : List NS) (st : State) (ns : List Node), pureList ns = true →
-      ∀ st' o, renderList limit depth base pushed globals st ns = .ok (st', o) → st' = st) := by
+/-- **with_scoped_on_every_exit**: the scope stack is balanced over every node, whatever way the node is
+left — normally, by `break`, by `continue`, or by an error (`ContextDepthError`, a failing filter) —
+for every nesting of `with`, `for`, `if` and macro calls.  In particular the namespace a `with` block pushes
+is popped on each of these exits (the `try … finally` of `RenderContext.extend`), so its arguments are
+visible *only* inside the block; and a `for` loop keeps everything below its own namespace. -/
+theorem with_scoped_on_every_exit (limit : Nat) :
+    (∀ (depth base : Nat) (globals : List NS) (st : State) (n : Node),
+      (render limit depth base globals st n).1.pushed = st.pushed) ∧
+    (∀ (depth base : Nat) (globals : List NS) (st : State) (v : Name) (i rem : Nat) (body : List Node),
+      (renderLoop limit depth base globals st v i rem body).1.pushed.tail = st.pushed.tail) ∧
+    (∀ (depth base : Nat) (globals : List NS) (st : State) (ns : List Node),
+      (renderList limit depth base globals st ns).1.pushed = st.pushed) := by
   apply render.mutual_induct limit
-    (motive1 := fun depth base pushed globals st n => pureNode n = true →
-      ∀ st' o, render limit depth base pushed globals st n = .ok (st', o) → st' = st)
-    (motive2 := fun depth base pushed globals st ns => pureList ns = true →
-      ∀ st' o, renderList limit depth base pushed globals st ns = .ok (st', o) → st' = st)
-  -- text, out
-  · intro depth base pushed globals st s _ st' o h; simp [render] at h; exact h.1.symm
-  · intro depth base pushed globals st e _ st' o h; simp [render] at h; exact h.1.symm
-  -- assign
-  · intro depth base pushed globals st n e hp; simp [pureNode] at hp
-  -- dumps
-  · intro depth base pushed globals st n _ st' o h; simp [render] at h; exact h.1.symm
-  · intro depth base pushed globals st n _ st' o h; simp [render] at h; exact h.1.symm
-  -- with: over the limit / ok
-  · intro depth base pushed globals st args body hlim _ st' o h; simp [render, hlim] at h
-  · intro depth base pushed globals st args body ns hlim ih hp st' o h
-    rw [render] at h; simp only [hlim, if_false] at h
-    exact ih (by simpa [pureNode] using hp) st' o h
-  -- macro
-  · intro depth base pushed globals st name params body hp; simp [pureNode] at hp
-  -- call: unknown / too deep / body fails / body ok
-  · intro depth base pushed globals st name pos kw hm _ st' o h
-    simp [render, hm] at h; exact h.1.symm
-  · intro depth base pushed globals st name pos kw m hm hd _ st' o h
-    simp [render, hm, hd] at h
-  · intro depth base pushed globals st name pos kw m hm ns hd e he _ _ st' o h
-    rw [render] at h; simp only [hm, hd, if_false] at h
-    rw [he] at h; cases h
-  · intro depth base pushed globals st name pos kw m hm ns hd fst o he _ _ st' o' h
-    rw [render] at h; simp only [hm, hd, if_false] at h
-    rw [he] at h; simp at h; exact h.1.symm
+    (motive1 := fun depth base globals st n => (render limit depth base globals st n).1.pushed = st.pushed)
+    (motive2 := fun depth base globals st v i rem body =>
+      (renderLoop limit depth base globals st v i rem body).1.pushed.tail = st.pushed.tail)
+    (motive3 := fun depth base globals st ns => (renderList limit depth base globals st ns).1.pushed = st.pushed)
+  -- leaves: text out assign dumpList dumpDict brk cont fail
+  · intros; simp [render]
+  · intros; simp [render]
+  · intros; simp [render]
+  · intros; simp [render]
+  · intros; simp [render]
+  · intros; simp [render]
+  · intros; simp [render]
+  · intros; simp [render]
+  -- with: too deep / entered
+  · intro depth base globals st args body h; simp [render, h]
+  · intro depth base globals st args body ns h ih
+    have ih' : (renderList limit depth base globals (st.push (evalArgs st.pushed st.locals globals args)) body).1.pushed
+        = evalArgs st.pushed st.locals globals args :: st.pushed := ih
+    rw [render]; simp only [h, if_false]
+    simp only [State.pop, ih', List.tail_cons]
+  -- if
+  · intro depth base globals st v k body h ih; rw [render]; simp only [h, if_true]; exact ih
+  · intro depth base globals st v k body h; rw [render]; simp only [h, if_false]
+  -- for: empty / too deep / entered
+  · intro depth base globals st v body; simp [render]
+  · intro depth base globals st v n body hn h; rw [render]; simp only [hn, if_false, h, if_true]
+  · intro depth base globals st v n body hn h ih
+    have ih' : (renderLoop limit depth base globals (st.push [(v, .val .undef)]) v 1 n body).1.pushed.tail
+        = st.pushed := ih
+    rw [render]; simp only [hn, if_false, h]
+    simp only [State.pop, ih']
+  -- include: too deep (tag) / too deep (partial) / rendered
+  · intro depth base globals st body h; rw [render]; simp only [h, if_true]
+  · intro depth base globals st body h h2; rw [render]; simp only [h, if_false, h2, if_true]
+  · intro depth base globals st body h h2 ih
+    have ih' : (renderList limit depth base globals ((st.push []).push []) body).1.pushed
+        = [] :: [] :: st.pushed := ih
+    rw [render]; simp only [h, if_false, h2]
+    simp only [State.pop, ih', List.tail_cons]
+  -- render: too deep / rendered
+  · intro depth base globals st args body h; rw [render]; simp only [h, if_true]
+  · intro depth base globals st args body ns h _; rw [render]; simp only [h, if_false]
+  -- macro definition
+  · intros; simp [render]
+  -- call: unknown / too deep / rendered
+  · intro depth base globals st name pos kw hm; rw [render]; simp only [hm]
+  · intro depth base globals st name pos kw m hm hd; rw [render]; simp only [hm, hd, if_true]
+  · intro depth base globals st name pos kw m hm ns hd _; rw [render]; simp only [hm, hd, if_false]
+  -- loop: no iteration left / break / error / next iteration
+  · intros; simp [renderLoop]
+  · intro depth base globals st v i body rem' st1 r hs ih
+    have hs' : (renderList limit depth base globals
+        { pushed := [(v, .val (.int i))] :: st.pushed.tail, locals := st.locals, macros := st.macros } body).2.2
+        = Sig.brk := hs
+    have ih' : (renderList limit depth base globals
+        { pushed := [(v, .val (.int i))] :: st.pushed.tail, locals := st.locals, macros := st.macros } body).1.pushed
+        = [(v, .val (.int i))] :: st.pushed.tail := ih
+    rw [renderLoop]
+    simp only [hs', ih', List.tail_cons]
+  · intro depth base globals st v i body rem' st1 r e hs ih
+    have hs' : (renderList limit depth base globals
+        { pushed := [(v, .val (.int i))] :: st.pushed.tail, locals := st.locals, macros := st.macros } body).2.2
+        = Sig.error e := hs
+    have ih' : (renderList limit depth base globals
+        { pushed := [(v, .val (.int i))] :: st.pushed.tail, locals := st.locals, macros := st.macros } body).1.pushed
+        = [(v, .val (.int i))] :: st.pushed.tail := ih
+    rw [renderLoop]
+    simp only [hs', ih', List.tail_cons]
+  · intro depth base globals st v i body rem' st1 r hb he ih _ ih2
+    have ih' : (renderList limit depth base globals
+        { pushed := [(v, .val (.int i))] :: st.pushed.tail, locals := st.locals, macros := st.macros } body).1.pushed
+        = [(v, .val (.int i))] :: st.pushed.tail := ih
+    have ih2' : (renderLoop limit depth base globals (renderList limit depth base globals
+        { pushed := [(v, .val (.int i))] :: st.pushed.tail, locals := st.locals, macros := st.macros } body).1
+        v (i + 1) rem' body).1.pushed.tail = (renderList limit depth base globals
+        { pushed := [(v, .val (.int i))] :: st.pushed.tail, locals := st.locals, macros := st.macros } body).1.pushed.tail := ih2
+    rw [renderLoop]
+    cases hs : (renderList limit depth base globals
+        { pushed := [(v, .val (.int i))] :: st.pushed.tail, locals := st.locals, macros := st.macros } body).2.2 with
+    | brk => exact absurd hs hb
+    | error e => exact absurd hs (he e)
+    | normal => simp only [ih2', ih', List.tail_cons]
+    | cont => simp only [ih2', ih', List.tail_cons]
   -- lists
-  · intro depth base pushed globals st _ st' o h; simp [renderList] at h; exact h.1.symm
-  · intro depth base pushed globals st n ns e he _ _ st' o h
-    rw [renderList] at h; rw [he] at h; cases h
-  · intro depth base pushed globals st n ns fst o he e he2 _ _ _ st' o' h
-    rw [renderList] at h; rw [he] at h; simp only at h; rw [he2] at h; cases h
-  · intro depth base pushed globals st n ns fst o he fst1 o1 he2 ih1 ih2 hp st' o' h
-    rw [renderList] at h; rw [he] at h; simp only at h; rw [he2] at h
-    simp only [Except.ok.injEq, Prod.mk.injEq] at h
-    simp only [pureList, Bool.and_eq_true] at hp
-    have h1 := ih1 hp.1 fst o he
-    subst h1
-    have h2 := ih2 hp.2 fst1 o1 he2
-    rw [← h.1, h2]
+  · intros; simp [renderList]
+  · intro depth base globals st n ns r hs ih1 ih2
+    have hs' : (render limit depth base globals st n).2.2 = Sig.normal := hs
+    have ih2' : (renderList limit depth base globals (render limit depth base globals st n).1 ns).1.pushed
+        = (render limit depth base globals st n).1.pushed := ih2
+    rw [renderList]
+    simp only [hs', ih2', ih1]
+  · intro depth base globals st n ns r hs ih1
+    rw [renderList]
+    cases hs2 : (render limit depth base globals st n).2.2 with
+    | normal => exact absurd hs2 hs
+    | brk => simp only [ih1]
+    | cont => simp only [ih1]
+    | error e => simp only [ih1]
+
+/-- a `with` block as such: after `{% with … %}…{% endwith %}` the scope stack is what it was, however the
+block was left -/
+theorem with_pops (limit depth base : Nat) (globals : List NS) (st : State) (args : List (Name × Expr))
+    (body : List Node) : (render limit depth base globals st (.withB args body)).1.pushed = st.pushed :=
+  (with_scoped_on_every_exit limit).1 depth base globals st _
+
+/-- a macro call never touches the caller's state — not even when its body is left by an interrupt or an
+error -/
+theorem call_leaves_caller_state (limit depth base : Nat) (globals : List NS) (st : State) (name : Name)
+    (pos : List Expr) (kw : List (Name × Expr)) :
+    (render limit depth base globals st (.call name pos kw)).1 = st := by
+  rw [render]
+  cases dictGet st.macros name with
+  | none => rfl
+  | some m => simp only []; split <;> rfl
+
+/-! ## Macros across templates: `include` shares them, `render` isolates them -/
+
+/-- **include_shares_macros**: a macro defined by an included template is registered in the *parent's*
+state — the parent (and any template it includes later) can call it. -/
+theorem include_shares_macros (limit depth base : Nat) (globals : List NS) (st : State) (f : Name)
+    (ps : List (Name × Option Expr)) (b : List Node) (hlim : base + (st.pushed.length + 1) ≤ limit) :
+    render limit depth base globals st (.included [.macroDef f ps b])
+      = ({ st with macros := dictSet st.macros f { params := parseParams ps, body := b } }, "", .normal) := by
+  have h1 : ¬ base + st.pushed.length > limit := by omega
+  have h2 : ¬ base + (st.pushed.length + 1) > limit := by omega
+  rw [render]; simp only [h1, h2, if_false]
+  rw [renderList, render]
+  simp [renderList, State.push, State.pop]
+
+/-- **render_isolates_state**: whatever a rendered partial assigns or defines (macros included), the caller's
+state is what it was. -/
+theorem render_isolates_state (limit depth base : Nat) (globals : List NS) (st : State)
+    (args : List (Name × Expr)) (body : List Node) :
+    (render limit depth base globals st (.isolated args body)).1 = st := by
+  rw [render]; simp only []; split <;> rfl
+
+/-- **render_hides_macros**: a macro of the caller cannot be called from a rendered partial (the copy has
+its own, empty, macro table): the call renders nothing. -/
+theorem render_hides_macros (limit depth base : Nat) (globals : List NS) (st : State)
+    (args : List (Name × Expr)) (f : Name) (pos : List Expr) (kw : List (Name × Expr)) (hd : depth ≤ limit) :
+    render limit depth base globals st (.isolated args [.call f pos kw]) = (st, "", .normal) := by
+  have h : ¬ depth > limit := by omega
+  rw [render]; simp only [h, if_false]
+  rw [renderList, render]
+  simp [renderList, dictGet]
 
 /-- **with_visible_inside**: the rendered form of `with_shadows` — `{% with …, k: e, … %}{{ k }}{% endwith %}`
 prints the value of `e` taken outside the block and leaves the state alone. -/
-theorem with_visible_inside (limit depth base : Nat) (pushed globals : List NS) (st : State)
+theorem with_visible_inside (limit depth base : Nat) (globals : List NS) (st : State)
     (args : List (Name × Expr)) (k : Name) (e : Expr) (h : lastOf args k = some e)
-    (hlim : base + pushed.length ≤ limit) :
-    render limit depth base pushed globals st (.withB args [.out (.var k)])
-      = .ok (st, objStr (eval pushed st.locals globals e)) := by
-  have hl : ¬ base + pushed.length > limit := by omega
+    (hlim : base + st.pushed.length ≤ limit) :
+    render limit depth base globals st (.withB args [.out (.var k)])
+      = (st, objStr (eval st.pushed st.locals globals e), .normal) := by
+  have hl : ¬ base + st.pushed.length > limit := by omega
   rw [render]; simp only [hl, if_false]
   rw [renderList, render]
-  simp only [renderList, eval, with_shadows pushed st.locals globals args k e h, String.append_empty]
+  simp only [renderList, State.push, State.pop, eval, List.tail_cons,
+    with_shadows st.pushed st.locals globals args k e h, String.append_empty]
+
+/-- **break leaves the block's names behind**: in `for … {% with k: e %}{% break %}{% endwith %}` style
+templates the interrupt passes through the block, and the block's namespace is gone afterwards:
+a `with` whose body is just `{% break %}` returns the state unchanged and the signal `brk`. -/
+theorem with_break_pops (limit depth base : Nat) (globals : List NS) (st : State)
+    (args : List (Name × Expr)) (hlim : base + st.pushed.length ≤ limit) :
+    render limit depth base globals st (.withB args [.brk]) = (st, "", .brk) := by
+  have hl : ¬ base + st.pushed.length > limit := by omega
+  rw [render]; simp only [hl, if_false]
+  rw [renderList, render]
+  simp [State.push, State.pop]
 
 /-! ## Non-vacuity -/
 
@@ -311,6 +414,8 @@ example : (macroArgs (parseParams [("a", none), ("b", some (.lit "B")), ("a", so
     = { args := [("a", some (.lit "1")), ("b", some (.lit "7"))], excessArgs := [.lit "3"],
         excessKwargs := [("z", .lit "6")] } := by decide
 
-example : pureList [.withB [("a", .lit "1")] [.out (.var "a"), .call "f" [] []]] = true := by decide
+example : render 30 0 5 [] { pushed := [], locals := [], macros := [] } (.withB [("p", .lit "x")] [.brk])
+    = ({ pushed := [], locals := [], macros := [] }, "", .brk) :=
+  with_break_pops 30 0 5 [] _ _ (by decide)
 
 end LiquidVerif.C27
